@@ -195,6 +195,8 @@ pub fn draw_config(rng: &mut ChaCha8Rng, p: &Profile) -> Config {
         unsafe_mutations,
         allow_ext: rng.random::<f64>() < p.flag_p,
         allow_buffer: rng.random::<f64>() < p.flag_p,
+        // one configuration in 16 also sets the PRNG buffer size option
+        bufsize: if rng.random_range(0..16) == 0 { Some([0usize, 1, 16, 255, 4096, 1 << 20, usize::MAX][rng.random_range(0..7)]) } else { None },
     }
 }
 
